@@ -17,6 +17,7 @@
    Proofs/WalkParInv.v (LTS invariant), Proofs/WalkParP.v (instantiation). *)
 From Coq Require Import List NArith Arith Bool Permutation.
 From Toasty Require Import Model.Quadtree Model.Reducer Model.WalkPar Proofs.ReducerP Proofs.CountsP.
+From Toasty Require Import Proofs.WalkParTotal.
 From Toasty Require Import Proofs.WalkParAux Proofs.WalkParInv Proofs.WalkParP.
 Import ListNotations.
 
@@ -31,6 +32,13 @@ Theorem walk_ops_scope : forall P q, wf_pyr P -> In q (spec_ops P) ->
   in_filter P q = true /\ below q (apex P) = true /\ (pn (apex P) <= pn q < depth P)%nat.
 Proof. exact CountsP.spec_ops_scope. Qed.
 Print Assumptions walk_ops_scope.
+
+(* the preparation pass never fails: the LTS has an initial state for every
+   well-formed pyramid, so the theorems below are not vacuous *)
+Theorem walk_par_defined :
+  forall P par pcap, wf_pyr P -> exists s0, winit P par pcap = Some s0.
+Proof. exact WalkParTotal.winit_defined. Qed.
+Print Assumptions walk_par_defined.
 
 (* every reachable state of the parallel walk: a callback starts only for a live
    non-leaf tile of the sub-pyramid; at most one Start and one End per tile; every
